@@ -290,6 +290,39 @@ JsonL1 == SetToSeq(
 DocsJson == {O2(cA, x, cC, A0) : x \in {A0, O0, Null, I(1), Half, I(-1), S(<<105, 110, 102>>), S(<<78, 97, 78>>), S(<<49, 101, 51, 48, 57>>), S(<<49>>), A2(I(1), I(2)), O1(cA, A0), A1(A0)}}
             \cup {A0, O0, Null}
 
+(* ---------------- C06: read-only input --------------------------------------------------------- *)
+(* every built-in applied directly to parts of the document, so that an in-place implementation would be
+   visible: unsorted arrays, non-palindromes, objects with overlapping keys; arrays of mixed types make the
+   by-expression functions fail midway (error path) *)
+RoKeys == <<Current, fA, fB, C1("abs", Current), C1("to_number", Current), Lit(I(1)), C1("length", Current)>>
+RoL1 == SetToSeq(
+     UNION {{C1(OneArg[s], a) : s \in 1..Len(OneArg)} : a \in {fA, fB, Current}}
+ \cup UNION {{C2(f, a, Ref(RoKeys[k])) : f \in {"sort_by", "max_by", "min_by"}, k \in 1..Len(RoKeys)} : a \in {fA, fB, Current}}
+ \cup UNION {{C2("map", Ref(RoKeys[k]), a) : k \in 1..Len(RoKeys)} : a \in {fA, fB, Current}}
+ \cup {C2("merge", fA, fB), C2("merge", fB, fA), C2("merge", Current, fA), C2("contains", fA, Lit(I(1))), C2("join", Lit(S(<<44>>)), fA),
+       C2("not_null", fA, fB), C2("not_null", fC, fA), Proj(Flat(fA), Identity), Proj(Flat(Current), Identity), SliceOf(fA, NoneP, NoneP, IntP(-1)),
+       SliceOf(Current, IntP(1), NoneP, NoneP), Proj(fA, Identity), VProj(Current, Identity), Filt(fA, Identity, Current),
+       Fn(NameCps["merge"], <<fA, fB, fA>>), C2("ends_with", fA, fB), Cmp("eq", fA, fB), MSL(<<fA, fB>>), MSH(<<KV(cA, fA)>>)})
+RoNS == 12
+RoDim(s) == 1
+RoWrap(s, x, k) ==
+  CASE s = 1 -> Pipe(x, IdxI(0))
+    [] s = 2 -> Proj(fB, x)
+    [] s = 3 -> MSL(<<x, fA, Current>>)
+    [] s = 4 -> C2("map", Ref(x), fB)
+    [] s = 5 -> Filt(fB, Identity, x)
+    [] s = 6 -> Or(x, fA)
+    [] s = 7 -> Pipe(x, C1("reverse", Current))
+    [] s = 8 -> Pipe(x, C2("sort_by", Current, Ref(Current)))
+    [] s = 9 -> Pipe(x, C1("sort", Current))
+    [] s = 10 -> MSL(<<x, x>>)
+    [] s = 11 -> Pipe(x, Proj(Flat(Current), Identity))
+    [] s = 12 -> C2("merge", x, fA)
+RoVals == {A3(I(3), I(1), I(2)), A3(S(cB), S(cAB), S(cA)), A3(I(3), S(cA), I(1)), A3(A2(I(2), I(1)), A2(S(cB), S(cA)), A0),
+           A3(O2(cA, I(2), cB, I(1)), O2(cA, I(1), cB, I(2)), O1(cA, I(0))), O2(cA, I(1), cB, I(2)), O2(cB, I(3), cC, I(4)), S(cAB), I(2), Null,
+           A2(O2(cA, I(2), cB, I(1)), O1(cA, S(cA))), A3(I(2), Null, I(1))}
+DocsRo == {O2(cA, x, cB, y) : x \in RoVals, y \in RoVals} \cup RoVals
+
 (* ---------------- C08: slices ------------------------------------------------------------- *)
 (* parameters: absent, the window [-L-2, L+2], and huge magnitudes of both signs *)
 SlL == IF Thorough THEN 6 ELSE 4
@@ -339,16 +372,16 @@ DocsPrec == {
 L1 == CASE Family = "C01" -> CoreL1 [] Family = "C03" -> PrecL1 [] Family = "C02" -> ProjL1 [] Family = "C07" -> OpL1 [] Family = "C07d" -> OpDocL1
         [] Family = "C09" -> FnL1 [] Family = "C09n" -> FnNestL1 [] Family = "C10" -> <<>> [] Family = "C10d" -> MxDocL1
         [] Family = "C10k" -> ByL1 [] Family = "C11" -> ErrL1 [] Family = "C16" -> JsonL1
-        [] Family = "C08" -> <<>> [] Family = "C08i" -> SlIdxL1
-NS == CASE Family = "C01" -> CoreNS [] Family = "C03" -> PrecNS [] Family = "C02" -> ProjNS [] Family = "C07" -> OpNS [] Family = "C09" -> FnNS
+        [] Family = "C08" -> <<>> [] Family = "C08i" -> SlIdxL1 [] Family = "C06" -> RoL1
+NS == CASE Family = "C01" -> CoreNS [] Family = "C03" -> PrecNS [] Family = "C06" -> RoNS [] Family = "C02" -> ProjNS [] Family = "C07" -> OpNS [] Family = "C09" -> FnNS
         [] Family = "C09n" -> FnNestNS [] Family = "C11" -> CtxNS [] OTHER -> 0
-Dim(s) == CASE Family = "C01" -> CoreDim(s) [] Family = "C03" -> PrecDim(s) [] Family = "C02" -> ProjDim(s) [] Family = "C07" -> OpDim(s) [] Family = "C09" -> FnDim(s)
+Dim(s) == CASE Family = "C01" -> CoreDim(s) [] Family = "C03" -> PrecDim(s) [] Family = "C06" -> RoDim(s) [] Family = "C02" -> ProjDim(s) [] Family = "C07" -> OpDim(s) [] Family = "C09" -> FnDim(s)
             [] Family = "C09n" -> FnNestDim(s) [] Family = "C11" -> CtxDim(s)
-Wrap(s, x, k) == CASE Family = "C01" -> CoreWrap(s, x, k) [] Family = "C03" -> PrecWrap(s, x, k) [] Family = "C02" -> ProjWrap(s, x, k) [] Family = "C07" -> OpWrap(s, x, k)
+Wrap(s, x, k) == CASE Family = "C01" -> CoreWrap(s, x, k) [] Family = "C03" -> PrecWrap(s, x, k) [] Family = "C06" -> RoWrap(s, x, k) [] Family = "C02" -> ProjWrap(s, x, k) [] Family = "C07" -> OpWrap(s, x, k)
                    [] Family = "C09" -> FnWrap(s, x, k) [] Family = "C09n" -> FnNestWrap(s, x, k) [] Family = "C11" -> CtxWrap(s, x, k)
 DocSet == CASE Family = "C01" -> DocsCore [] Family = "C03" -> DocsPrec [] Family = "C02" -> DocsProj [] Family \in {"C07", "C09", "C10", "C10k"} -> {Null}
             [] Family = "C07d" -> DocsOp [] Family = "C09n" -> DocsFnNest [] Family = "C10d" -> DocsMx [] Family = "C11" -> DocsCtx
-            [] Family = "C16" -> DocsJson [] Family \in {"C08", "C08i"} -> DocsSlice
+            [] Family = "C16" -> DocsJson [] Family \in {"C08", "C08i"} -> DocsSlice [] Family = "C06" -> DocsRo
 (* number of wrapping levels: 1 = only L1; 2 = one Wrap; 3 = two nested Wraps *)
 Levels == CASE Family \in {"C07d", "C10d", "C10k", "C16", "C08i"} -> 1 [] Family = "C08" -> 0 [] Family \in {"C01", "C07", "C11", "C03"} -> 3 [] Family = "C10" -> 0 [] OTHER -> 2
 EmitL1 == Family \notin {"C09"}
